@@ -270,13 +270,14 @@ func c02Check(data []byte) {
 	}
 }
 
-// VerifC02_AllShort: every byte string of length 0..N (N = 5 quick, 7 thorough).
+// VerifC02_AllShort: every byte string of length 0..N (N = 5 quick, 6 thorough; 7 did not finish
+// in 90 minutes and is not registered).
 func VerifC02_AllShort() {
 	vsymExpect("accepted")
 	vsymExpect("rejected")
 	max := 5
 	if vsymTier() == 1 {
-		max = 7
+		max = 6
 	}
 	n := vsymChoose(max + 1)
 	data := vsymBytes(n)
